@@ -51,6 +51,7 @@ def run(ctx):
     ctx.do(rule_reference_names_agree)
     ctx.do(rule_property_table_is_a_copy)
     ctx.do(rule_lookups_name_their_category)
+    ctx.do(rule_ready_made_extension_is_of_the_registered_class)
     from .C02 import rule_definition_of_named_type
     ctx.do(rule_definition_of_named_type, rule_id="C19.builtin-parity")
     ctx.do(rule_builtin_parity)
@@ -812,3 +813,27 @@ def rule_property_table_is_a_copy(ctx):
               "it, so a later change of that dictionary changes the registration -- for the version it was made for, without any "
               "validation" % par, file=rel, line=bad[0].lineno if bad else fi.node.lineno, function=fi.qualname,
               expected="return OrderedDict(%s)" % par, found=[short(r) for r in bad])
+
+
+def rule_ready_made_extension_is_of_the_registered_class(ctx, R="C19.version-scope"):
+    """A ready-made extension object given under a registered extension key is taken as valid only when it is an instance of
+    THE CLASS REGISTERED for that key in the property's spec version (`isinstance(subvalue, cls)`, cls = the registry's
+    answer).  Accepting any library object whose _type equals the key lets an instance of the OTHER version's class of the
+    same name through unvalidated: registrations are version-scoped, the acceptance test must be too."""
+    run = ctx.run
+    prog = ctx.prog
+    fi = prog.cls("stix2.properties::ExtensionsProperty").methods.get("clean")
+    if fi is None:
+        raise AnalysisError("anchor missing: ExtensionsProperty.clean")
+    looked = {norm(a.targets[0]) for a in body_walk(fi.node) if isinstance(a, ast.Assign) and isinstance(a.value, ast.Call)
+              and call_simple_name(a.value) == "class_for_type"}
+    if not looked:
+        raise AnalysisError("ExtensionsProperty.clean: the registry lookup was not found")
+    tests = [c for x in body_walk(fi.node) if isinstance(x, ast.If) for c in ast.walk(x.test)
+             if isinstance(c, ast.Call) and call_simple_name(c) == "isinstance" and len(c.args) == 2 and norm(c.args[1]) not in ("dict", "collections.abc.Mapping", "Mapping")]
+    ok = bool(tests) and all(norm(c.args[1]) in looked for c in tests)
+    run.check(ok, R, key(fi.module.relpath, fi.qualname, "ready-made-instance-of-the-registered-class"),
+              "a ready-made extension object is accepted by another test than `isinstance(<value>, <class registered for the key in "
+              "this version>)`: an instance of the other version's class registered under the same name is stored unvalidated",
+              file=fi.module.relpath, line=fi.node.lineno, function=fi.qualname, expected="isinstance(subvalue, cls)",
+              found=[short(c, 60) for c in tests])
